@@ -6,6 +6,7 @@ import GoWebdav.Props.C04
 import GoWebdav.Props.C06
 import GoWebdav.Props.C07
 import GoWebdav.Props.C12
+import GoWebdav.Props.C15
 import GoWebdav.Props.C16
 import GoWebdav.Props.C17
 import GoWebdav.Props.C19
